@@ -75,7 +75,9 @@ impl Job {
         format!(
             "{} {} files={:?} batch={} fd={} threads={}{}",
             if self.set { "set" } else { "map" },
-            self.mode, self.files, self.batch, self.fd, self.threads,
+            self.mode,
+            self.files.iter().map(|f| if f.len() <= 12 { format!("{:?}", f) } else { format!("[{:?}, {:?}, ... {} rows]", f[0], f[1], f.len()) }).collect::<Vec<_>>(),
+            self.batch, self.fd, self.threads,
             match self.bound { Some(k) => format!(" [stateless, <= {} deviations from the default schedule]", k), None => String::new() }
         ) + if self.nonl { " [no final newline in the input files]" } else { "" }
     }
@@ -364,7 +366,12 @@ fn run_real(job: &Job) -> Result<(), String> {
     run_real_variant(job, 0)?;
     // the output path already holds a longer file; the first input arrives through a pipe
     run_real_variant(job, 1)?;
-    run_real_variant(job, 2)
+    run_real_variant(job, 2)?;
+    if job.files.len() == 1 && !job.files[0].is_empty() {
+        // the same input path named twice: its rows count twice
+        run_real_variant(job, 3)?;
+    }
+    Ok(())
 }
 
 /// variant 0: fresh output path, inputs are regular files; 1: the output path
@@ -384,6 +391,14 @@ fn run_real_variant(job: &Job, variant: u8) -> Result<(), String> {
         piped = Some(std::fs::read(&inputs[0]).map_err(|e| format!("machinery: {}", e))?);
         inputs[0] = "/dev/stdin".into();
     }
+    let twice;
+    let job = if variant == 3 {
+        inputs.push(inputs[0].clone());
+        twice = Job { files: vec![job.files[0].clone(), job.files[0].clone()], ..job.clone() };
+        &twice
+    } else {
+        job
+    };
     let args = cli_args(job, &inputs, &out, false);
     let mut child = std::process::Command::new(real_bin())
         .args(&args[1..])
@@ -399,7 +414,7 @@ fn run_real_variant(job: &Job, variant: u8) -> Result<(), String> {
         drop(si);
     }
     let o = child.wait_with_output().map_err(|e| format!("machinery: {}", e))?;
-    let what = ["", " (existing longer output file, --force)", " (first input through /dev/stdin from a pipe)"][variant as usize];
+    let what = ["", " (existing longer output file, --force)", " (first input through /dev/stdin from a pipe)", " (the same input path named twice)"][variant as usize];
     if !o.status.success() {
         return Err(format!("real binary exited with {:?}{}: {}", o.status.code(), what, String::from_utf8_lossy(&o.stderr)));
     }
@@ -633,6 +648,17 @@ fn grid_jobs(tier: Tier) -> Vec<Job> {
             v.push(Job { set: true, mode: "sum".into(), files: vec![lines[..4].to_vec(), lines[4..].to_vec()], batch, fd, threads, explore: false, cap_s: 60, bound: None, nonl: true });
         }
     }
+    // input files larger than any reader buffer (about 100 KB and 300 KB): many rows, few batches
+    for (n, batch) in [(9_000usize, 2_000u32), (25_000, 6_000)] {
+        let rows: Vec<String> = (0..n).map(|i| format!("key-{:05}-{},{}", (i * 7919) % n, "x".repeat(i % 5), i % 97 + 1)).collect();
+        let lines: Vec<String> = (0..n).map(|i| format!("line-{:05}-{}", (i * 7919) % (n - 17), "y".repeat(i % 7))).collect();
+        for threads in [1u32, 3] {
+            v.push(Job { set: false, mode: "sum".into(), files: vec![rows.clone()], batch, fd: 3, threads, explore: false, cap_s: 120, bound: None, nonl: false });
+            v.push(Job { set: true, mode: "sum".into(), files: vec![lines.clone()], batch, fd: 2, threads, explore: false, cap_s: 120, bound: None, nonl: threads == 3 });
+            let (a, b) = rows.split_at(n / 3);
+            v.push(Job { set: false, mode: "max".into(), files: vec![a.to_vec(), b.to_vec()], batch, fd: 2, threads, explore: false, cap_s: 120, bound: None, nonl: false });
+        }
+    }
     // large numbers of batches (default schedule): rounds with 60..260 items
     for n in [60usize, 64, 65, 66, 67, 68, 69, 70, 100, 129, 200, 260] {
         for (fd, threads) in [(2u32, 1u32), (2, 2), (3, 3), (4, 4), (15, 2)] {
@@ -711,7 +737,23 @@ fn child_main(core: usize, spec: &str) {
 fn spawn_child(jobs: &[Job], core: usize) -> Result<Vec<Value>, String> {
     let exe = std::env::current_exe().unwrap();
     let spec = serde_json::to_string(&jobs.iter().map(|j| j.to_json()).collect::<Vec<_>>()).unwrap();
-    let o = std::process::Command::new(exe).arg("JOBS").arg(core.to_string()).arg(spec).output().map_err(|e| format!("{}", e))?;
+    // the job list goes through the child's stdin (it can be far longer than an argument may be)
+    use std::io::Write;
+    let mut child = std::process::Command::new(exe)
+        .arg("JOBS")
+        .arg(core.to_string())
+        .arg("-")
+        .stdin(std::process::Stdio::piped())
+        .stdout(std::process::Stdio::piped())
+        .stderr(std::process::Stdio::piped())
+        .spawn()
+        .map_err(|e| format!("{}", e))?;
+    let mut si = child.stdin.take().unwrap();
+    let writer = std::thread::spawn(move || {
+        let _ = si.write_all(spec.as_bytes());
+    });
+    let o = child.wait_with_output().map_err(|e| format!("{}", e))?;
+    let _ = writer.join();
     if !o.status.success() {
         return Err(format!("child exited with {:?}: {}", o.status.code(), String::from_utf8_lossy(&o.stderr)));
     }
@@ -767,7 +809,14 @@ fn replay(path: &str) -> ! {
 fn main() {
     let args: Vec<String> = std::env::args().skip(1).collect();
     if args.first().map(|s| s.as_str()) == Some("JOBS") {
-        child_main(args[1].parse().unwrap_or(0), &args[2]);
+        let spec = if args[2] == "-" {
+            let mut s = String::new();
+            std::io::Read::read_to_string(&mut std::io::stdin(), &mut s).unwrap();
+            s
+        } else {
+            args[2].clone()
+        };
+        child_main(args[1].parse().unwrap_or(0), &spec);
         return;
     }
     if args.first().map(|s| s.as_str()) != Some("C19") {
@@ -958,7 +1007,7 @@ fn main() {
     if std::path::Path::new(&real_bin()).exists() {
         std::env::set_var("TMPDIR", workdir());
         std::fs::create_dir_all(workdir()).unwrap();
-        let real: Vec<&Job> = gjobs.iter().filter(|j| tier == Tier::Thorough || (j.files[0].len() == 3 && j.threads != 1 && j.fd <= 3) || j.files.len() == 2).collect();
+        let real: Vec<&Job> = gjobs.iter().filter(|j| tier == Tier::Thorough || (j.files[0].len() == 3 && j.threads != 1 && j.fd <= 3) || j.files.len() == 2 || j.files[0].len() >= 9_000).collect();
         let next = std::sync::atomic::AtomicUsize::new(0);
         let cnt = std::sync::atomic::AtomicU64::new(0);
         std::thread::scope(|s| {
@@ -981,6 +1030,7 @@ fn main() {
         });
         let n = cnt.load(std::sync::atomic::Ordering::SeqCst);
         st.count("real_binary_free_running_runs", 3 * n);
+        st.count("real_binary_configurations", n);
         st.evals += n;
         let e = scopes.entry("real-binary-free-running (uncontrolled schedules, not an enumeration)".into()).or_insert((0, 0));
         e.0 += 1;
@@ -999,7 +1049,7 @@ fn main() {
         tier,
         st,
         &rep,
-        "SCHED: the real cmd::map::run / cmd::set::run (merge.rs, util.rs, app.rs included by path) run in-process; every channel send/receive, spawn and thread exit is a scheduling point; for each listed (input, batch size, fd-limit, threads, merge mode) ALL interleavings are explored with happens-before state caching; additionally, for some configurations, every schedule with at most k deviations from the default schedule (k = 1..3, delay bounding) is explored statelessly (no cache, hence no assumption about shared state); in every complete execution: exit Ok, no deadlock, output opens, verifies, conforms to the v3 format (independent decoder), content == model merge (sum/max/min per key over all rows; distinct lines for sets), bytes identical across all schedules; configuration grid under the default schedule: every row sequence of length <= 3 (thorough 4) over {a,1 a,2 b,1 b,2} (sets: {a,b,ab}) x batch 1..R x fd-limit 2..4 x threads 1..4 x 3 modes x one/two/three input files (incl. an empty file in first, middle and last position); input files without a final newline; rows whose keys have leading / trailing blanks and tabs, inner blanks, upper case, non-ASCII characters, quoted CSV fields with commas and quotes; rounds of 60..260 batches (default schedule; deadlocks are detected as 'no enabled thread'); many-batches family: 5..24 (thorough 40) rows with batch size 1 x fd-limit 2..4 x threads {1,2,4,8,16} with distinct keys, keys repeated in three batches (3 modes) and line sets; plus byte identity with the --sorted build and a library build for inputs without repeated keys; the real binary free-running on a subset, each configuration three ways: fresh output path; an existing, longer output file (--force); the first input through /dev/stdin fed by a pipe. non-trivial = distinct happens-before states of explored configurations".into(),
+        "SCHED: the real cmd::map::run / cmd::set::run (merge.rs, util.rs, app.rs included by path) run in-process; every channel send/receive, spawn and thread exit is a scheduling point; for each listed (input, batch size, fd-limit, threads, merge mode) ALL interleavings are explored with happens-before state caching; additionally, for some configurations, every schedule with at most k deviations from the default schedule (k = 1..3, delay bounding) is explored statelessly (no cache, hence no assumption about shared state); in every complete execution: exit Ok, no deadlock, output opens, verifies, conforms to the v3 format (independent decoder), content == model merge (sum/max/min per key over all rows; distinct lines for sets), bytes identical across all schedules; configuration grid under the default schedule: every row sequence of length <= 3 (thorough 4) over {a,1 a,2 b,1 b,2} (sets: {a,b,ab}) x batch 1..R x fd-limit 2..4 x threads 1..4 x 3 modes x one/two/three input files (incl. an empty file in first, middle and last position); input files without a final newline; rows whose keys have leading / trailing blanks and tabs, inner blanks, upper case, non-ASCII characters, quoted CSV fields with commas and quotes; rounds of 60..260 batches (default schedule; deadlocks are detected as 'no enabled thread'); many-batches family: 5..24 (thorough 40) rows with batch size 1 x fd-limit 2..4 x threads {1,2,4,8,16} with distinct keys, keys repeated in three batches (3 modes) and line sets; plus byte identity with the --sorted build and a library build for inputs without repeated keys; the real binary free-running on a subset, each configuration three ways: fresh output path; an existing, longer output file (--force); the first input through /dev/stdin fed by a pipe; the same input path named twice; input files of about 100 KB and 300 KB. non-trivial = distinct happens-before states of explored configurations".into(),
         vec![
             "threads of merge.rs interact only through the channels (immutable Arcs otherwise); files are written by one batch and read only in later generations; checked by the unique-file-name trace".into(),
             "two prefixes with equal per-thread histories (incl. identities of received messages) are the same Mazurkiewicz trace and have the same futures".into(),
